@@ -10,7 +10,7 @@ func init() {
 			"(c) split routes pass a neutral per-leg limit, sum their legs and compare the sum; (d) the amount charged by the taker-fee step depends only on quantities the estimate also has (bypass agreement).",
 		NotCovered:  []string{"'exactly the result of performing the hops one after another' as a value statement across pool types", "estimates leave state untouched for cosmwasm pools", "routes visiting a pool twice"},
 		Assumptions: []string{"pool modules implement PoolModuleI as specified (checked for gamm and concentrated-liquidity entries here)", "SDK transaction atomicity"},
-		MinObl:      64,
+		MinObl:      88,
 		Run:         runC05,
 	})
 }
@@ -99,6 +99,10 @@ func runC05(c *rules.Ctx) {
 	c.LimitChecked("x/concentrated-liquidity.Keeper.SwapExactAmountOut", 0, "tokenInMaxAmount", "max", "nil", "concentrated: the amount charged was compared with the maximum")
 	c.FailsWhen("x/gamm/keeper.Keeper.SwapExactAmountIn", "lt(gammtypes.CFMMPoolI.SwapOutAmtGivenIn(...)#0.Amount, tokenOutMinAmount)", "gamm: below-minimum output fails before the pool is updated", rules.GuardOpt{Before: "gammkeeper.Keeper.updatePoolForSwap"})
 	c.FailsWhen("x/gamm/keeper.Keeper.SwapExactAmountOut", "gt(gammtypes.CFMMPoolI.SwapInAmtGivenOut(...)#0.Amount, tokenInMaxAmount)", "gamm: above-maximum input fails before the pool is updated", rules.GuardOpt{Before: "gammkeeper.Keeper.updatePoolForSwap"})
+
+	// ---- concentrated hops: the estimate hop and the execution hop perform the same per-step transition
+	clSwapLoopRules(c)
+	gammSwapSettleRules(c)
 
 	// ---- taker fee step --------------------------------------------------------------------------------------------------------
 	const CH = K + "chargeTakerFee"
